@@ -151,29 +151,45 @@ def gen_packages():
     return sorted(pkgs)
 
 
+GEN_HEADERS = {
+    "Generated": "From Coq Require Import List NArith.\nImport ListNotations.\nOpen Scope N_scope.\n",
+    "GeneratedFlights": "From Coq Require Import List NArith.\nFrom DtlsV Require Import Gen.Generated Hs.Abs12.\n"
+                        "Import ListNotations.\nOpen Scope nat_scope.\n",
+}
+
+
 def regenerate():
-    """Tie 1: rewrite coq/theories/Gen/Generated.v from /repo's current tree by executing the
-    dumpers (TestVerifGen*). Returns (ok, detail). The file is only touched when it changes."""
-    parts = []
+    """Tie 1: rewrite coq/theories/Gen/Generated*.v from /repo's current tree by executing the
+    dumpers (TestVerifGen*). A dumper's output goes to Generated.v; text after a line
+    `(*@@ Name *)` goes to Gen/Name.v. Returns (ok, detail). Files are only touched when they change."""
+    files = {"Generated": []}
     for pkg in gen_packages():
         out = out_path("gen")
-        rc, o = go_test(pkg, "^TestVerifGen", {"VERIF_OUT": out}, tags=["gen"], timeout=600)
+        rc, o = go_test(pkg, "^TestVerifGen", {"VERIF_OUT": out}, tags=["gen", "c02"], timeout=600)
         if rc != 0:
             cleanup(out)
             return False, "generator for %s failed:\n%s" % (pkg, o[-3000:])
-        parts.append("(* ---- from package %s ---- *)\n" % pkg + open(out).read())
+        cur = "Generated"
+        files[cur].append("(* ---- from package %s ---- *)" % pkg)
+        for line in open(out).read().splitlines():
+            m = re.match(r"\(\*@@\s*(\w+)\s*\*\)", line)
+            if m:
+                cur = m.group(1)
+                files.setdefault(cur, []).append("(* ---- from package %s ---- *)" % pkg)
+                continue
+            files[cur].append(line)
         cleanup(out)
-    txt = ("(* GENERATED on every run by lib/vlib.py regenerate() from /repo's working tree by executing\n"
-           "   the TestVerifGen* dumpers through go test -overlay. Do not edit. *)\n"
-           "From Coq Require Import List NArith.\nImport ListNotations.\nOpen Scope N_scope.\n\n"
-           + "\n".join(parts))
-    p = os.path.join(COQ, "theories", "Gen", "Generated.v")
     with Lock("gen"):
-        old = open(p).read() if os.path.exists(p) else None
-        if old != txt:
-            os.makedirs(os.path.dirname(p), exist_ok=True)
-            with open(p, "w") as f:
-                f.write(txt)
+        for name, lines in files.items():
+            txt = ("(* GENERATED on every run by lib/vlib.py regenerate() from /repo's working tree by executing\n"
+                   "   the TestVerifGen* dumpers through go test -overlay. Do not edit. *)\n"
+                   + GEN_HEADERS.get(name, GEN_HEADERS["Generated"]) + "\n" + "\n".join(lines) + "\n")
+            p = os.path.join(COQ, "theories", "Gen", name + ".v")
+            old = open(p).read() if os.path.exists(p) else None
+            if old != txt:
+                os.makedirs(os.path.dirname(p), exist_ok=True)
+                with open(p, "w") as f:
+                    f.write(txt)
     return True, ""
 
 
